@@ -58,7 +58,7 @@ CLAIMED = {
         note="Trusts TLC and the recording struct / middleware. Response comparison is on what a client would receive (empty handler query = echoed request query)."),
     "C04": dict(
         category="model_checking", design_ref="DESIGN.md §5 C04",
-        technique="TLA+ spec ClientMux (callers, pending map, reader, adversarial server) checked by TLC; the three real clients driven by a scripted adversarial server over raw TCP / raw WebSocket and the recorded caller-level events trace-validated by TLC with silent reader steps; TLC-generated ClientMux behaviours (MC_ClientMuxGen) stepped through the real clients by probes at allocate / register / write / read / dispatch; the WebSocket notify slot modelled separately (NotifySub, must-violate config) and its hook-level traces from scripted subscribe / unsubscribe / push races trace-validated by TLC",
+        technique="TLA+ spec ClientMux (callers, pending map, reader, adversarial server) checked by TLC; the three real clients driven by a scripted adversarial server over raw TCP / raw WebSocket and the recorded caller-level events trace-validated by TLC with silent reader steps; TLC-generated ClientMux behaviours (MC_ClientMuxGen) stepped through the real clients by probes at allocate / register / write / read / dispatch / take, including forwarded requests (forward_message) that reuse ids of the client's own calls; the WebSocket notify slot modelled separately (NotifySub, must-violate config) and its hook-level traces from scripted subscribe / unsubscribe / push races trace-validated by TLC",
         text="TLC exhausts all interleavings of 2-3 callers with the reader at the granularity allocate / register / write / receive / dispatch / take, against a server that answers in any order, duplicates answers, answers unknown ids and pushes notify frames reusing in-flight ids (Correlated, DistinctIds, NotifyOnlyToSubscriber). The real blocking, async and WebSocket clients are then driven by a scripted server through every permutation of 4 (quick) / 6 (thorough) concurrent calls with a rotating junk frame, 64-caller random orders and batches; what each caller received is accepted only if TLC finds a schedule of the model's reader that delivers exactly that.",
         note="Trusts TLC and the scripted server. The reader's internal steps are inferred, not logged. Probe-gated replay of TLC schedules at register/write granularity was not built (DESIGN.md section 9 fallback): interleaving exhaustiveness comes from the model, order exhaustiveness from the permutation sweep."),
     "C06": dict(
@@ -98,7 +98,7 @@ CLAIMED = {
         note="Trusts TLC, zstd for decompression of the concatenation, and the scripted producers. Chunk-size predictions are as-built layer (drift only)."),
     "C10": dict(
         category="fault_enumeration", design_ref="DESIGN.md §5 C10",
-        technique="TLA+ spec PullCommit checked by TLC; in-process fault scenarios and strace-injected process kills at every write/fsync/rename/close of the temp and destination paths on the real pullers, filesystem outcomes judged by TLC (Trace_PullCommit, PullCommit!Allowed)",
+        technique="TLA+ spec PullCommit checked by TLC; in-process fault scenarios and strace-injected process kills at every write/fsync/rename/close of the temp and destination paths on the real pullers, filesystem outcomes judged by TLC (Trace_PullCommit, PullCommit!Allowed); the same calls made to FAIL by strace error injection (ENOSPC / EIO / EXDEV), system-call traces stepped through PullCommit by Trace_PullSys",
         text="TLC checks the commit protocol (destination never partial; published only after end marker, sync and verification; an in-process failure leaves the destination as it was and no temp file; a kill leaves the destination as it was unless the rename happened). On the implementation the fault space is enumerated: producer failure after every chunk boundary +-1 byte, the connection cut after the k-th response for every k, rejecting verifier, trailer longer than the stream, blocking and async pullers, both compressions, destination absent or pre-existing; and a child process performing the pull is killed by strace fault injection at each write, fsync, rename and close touching the temp or destination path. The resulting filesystem and call result are validated by the trace specification; value-decoding pulls over a cut connection must error.",
         note="fault_enumeration: the fault placements are enumerated, not every interleaving of the OS. Assumes POSIX rename atomicity; power-loss durability is not exercised. Needs ptrace (strace) in the sandbox."),
 }
